@@ -627,6 +627,7 @@ func c02Idle(u fw.Unit) fw.Result {
 					}
 					a.outcome(c02Canon(ds, nil))
 					bi := 0
+				deliveries:
 					for _, b := range r.Batches {
 						for range b {
 							d := ds[bi]
@@ -644,10 +645,28 @@ func c02Idle(u fw.Unit) fw.Result {
 								continue
 							}
 							if lastEmit >= 0 && at-lastEmit > int64(idle) {
-								return // idle advance: from here on the reference watermark does not apply
+								break deliveries // idle advance: from here on the reference watermark does not apply
 							}
 							a.fail(fmt.Sprintf("C02|%s|fired-early-with-idle-timeout", kind), fmt.Sprintf("%s: window %s [%d,%d) (ms relative to the script's time base) delivered at virtual +%dms although the largest ingested timestamp is %d < end+OOO %d and the last Emit was only %dms earlier (IDLETIMEOUT 5s)", sql, d.WID, d.WS-base, d.WE-base, at/1e6, maxTS, d.WE-base+ooo, (at-lastEmit)/1e6), cs, nil, ds)
 							return
+						}
+					}
+					// an event that arrives after the source has been idle for more than IDLETIMEOUT (+0.5 s of slack for the
+					// watermark tick) and whose timestamp lies more than a second behind processing time - MAXOUTOFORDERNESS is
+					// older than the idle-advanced watermark: with ALLOWEDLATENESS 0 it changes no result
+					for j := 1; j < len(steps) && j < len(r.OpNs); j++ {
+						gap := r.OpNs[j] - r.OpNs[j-1]
+						nowMs := sched.Base.UnixMilli() + r.OpNs[j]/1e6
+						if gap <= int64(idle)+int64(500*time.Millisecond) || base+steps[j].TS >= nowMs-1000-ooo {
+							continue
+						}
+						for _, d := range ds {
+							for _, id := range d.IDs {
+								if id == j+1 {
+									a.fail(fmt.Sprintf("C02|%s|event-behind-idle-watermark-reported", kind), fmt.Sprintf("%s: event %d (ts %d on the script's time base) arrived %d ms after the previous one (IDLETIMEOUT 5s had advanced the watermark to processing time) and is reported in window %s [%d,%d)", sql, j+1, steps[j].TS, gap/1e6, d.WID, d.WS-base, d.WE-base), cs, nil, ds)
+									return
+								}
+							}
 						}
 					}
 				})
